@@ -25,6 +25,7 @@ PROPERTY = "C03"
 LEVEL = "exploration"
 RULE = ("histories of up to 12 steps over a per-run catalogue of inputs (generated peptides, inputs with an element "
         "missing from the valence table, ligands with covalently coupled groups, multi-conformation files, a CR LF copy, "
+        "a copy with a non-ASCII chain identifier, "
         "buried clusters of coupled acids, the corpus file 1HPX) x option sets (default, -d, -i, -c, -k, --protonate-all, "
         "-g/-w, -p variant, -q); rules: run from stream, run from path (drawn directory and cwd), CLI main() with "
         "several files, allocation churn, gc toggle, chdir; 16 interpreters with different hash seeds. Non-trivial: "
@@ -102,6 +103,22 @@ def build_catalogue(tier, seed):
     if out:
         # the same content with CR LF line ends: a path is read with newline translation, a stream is not
         out.append({"kind": "crlf", "text": out[0]["text"].replace("\n", "\r\n")})
+        # a chain identifier outside ASCII (any single character is accepted as a chain id): a path is decoded by the
+        # program, a stream arrives decoded.  Left out when the process encoding cannot represent the character.
+        import locale
+        try:
+            "\u00e9".encode(locale.getpreferredencoding(False))
+            ok_enc = True
+        except (UnicodeError, LookupError):
+            ok_enc = False
+        if ok_enc:
+            src = out[1 % (len(out) - 1)]["text"] if len(out) > 2 else out[0]["text"]
+            lines = []
+            for line in src.split("\n"):
+                if line.startswith(("ATOM", "HETATM", "TER")) and len(line) > 21 and line[21] != " ":
+                    line = line[:21] + "\u00e9" + line[22:]
+                lines.append(line)
+            out.append({"kind": "non-ascii-chain-id", "text": "\n".join(lines)})
         # sloppy content: CR LF, unpadded TER lines, no terminal oxygens (purity must hold for any content at all)
         sloppy = []
         for line in out[-2]["text"].split("\n") if len(out) > 1 else []:
